@@ -103,6 +103,8 @@ def polygon_stream(ctx, npoly, exhaustive):
     nq = len(QUERIES)
     Q2 = g.PointCollection(np.array([[float(x), float(y), 1.0] for x, y in QUERIES]))
     for pi, vs in enumerate(polys):
+        if ctx.out_of_time():
+            break
         exp = np.array([bool(dec_bools(a.split(" ")[1])) for a in answers[pi * nq:(pi + 1) * nq]])
         desc0 = f"polygon {vs}"
         variants = [("as-given", vs)]
@@ -296,6 +298,38 @@ def collection_stream(ctx, n):
             ctx.disagree("C16:polygon-collection", desc, [s[1] for s in singles], r[1:3], replay=[desc])
 
 
+def element_stream(ctx, n):
+    """elements taken out of a PolygonCollection (by index and by iteration; four-vertex elements are typed Rectangle whatever
+    their shape) answer `contains` like the Polygon built from the same vertices — non-convex quadrilaterals included"""
+    import geometer as g
+    rng = ctx.rng
+    DARTS = [[(0, 0), (2, 1), (4, 0), (2, 3)], [(0, 0), (4, 0), (4, 3), (2, 1)], [(0, 0), (3, 0), (1, 1), (0, 3)], [(0, 0), (2, 0), (3, 2), (0, 1)]]
+    for k in range(n):
+        quads = []
+        for _ in range(rng.randint(2, 3)):
+            q = rng.choice(DARTS)
+            dx, dy, r = rng.randint(-3, 3), rng.randint(-3, 3), rng.randrange(4)
+            q = [(x + dx, y + dy) for x, y in q]
+            quads.append(q[r:] + q[:r])
+        arr = np.array([[[float(x), float(y), 1.0] for x, y in q] for q in quads])
+        i = rng.randrange(len(quads))
+        base = quads[i]
+        cx, cy = sum(x for x, _ in base) / 4, sum(y for _, y in base) / 4
+        qs = [(cx, cy), (base[0][0] + 0.5, base[0][1] + 0.5), ((base[0][0] + base[1][0]) / 2, (base[0][1] + base[1][1]) / 2), (cx + 0.25, cy - 0.5), (base[2][0] - 0.5, base[2][1])]
+        desc = f"element {i} of a PolygonCollection of quadrilaterals {quads}"
+        ctx.case(desc)
+        ctx.count("polygon:collection-element")
+        def run():
+            PC = g.PolygonCollection(arr)
+            ref = g.Polygon(*[g.Point(float(x), float(y)) for x, y in base])
+            by_index, by_iter = PC[i], list(PC)[i]
+            return [(bool(ref.contains(g.Point(float(a), float(b)))), bool(by_index.contains(g.Point(float(a), float(b)))),
+                     bool(by_iter.contains(g.Point(float(a), float(b))))) for a, b in qs]
+        r = call_impl(run)
+        if r[0] != "ok" or any(len(set(t)) != 1 for t in r[1]):
+            ctx.disagree("C16:polygon-collection-element", desc + f" queries {qs}", "(Polygon, coll[i], iterated element) agree", r[1:3], replay=[desc])
+
+
 def moved_stream(ctx, n):
     """a polygon of space obtained by moving another one (translation out of its plane, rotation): membership must follow the
     moved vertices (cached supporting plane / edges)"""
@@ -356,12 +390,14 @@ def moved2d_stream(ctx, n):
 def correspondence(ctx):
     moved2d_stream(ctx, ctx.budget(20, 200))
     moved_stream(ctx, ctx.budget(40, 400))
-    if ctx.tier == "thorough":
+    if ctx.tier == "thorough" and ctx.deadline is None:
         polygon_stream(ctx, 0, True)
     else:
-        polygon_stream(ctx, 45, False)
+        # quick tier, or the time-capped deep search after a broken obligation
+        polygon_stream(ctx, 45 if ctx.tier != "thorough" else 400, False)
     segment_stream(ctx, ctx.budget(200, 3000))
     collection_stream(ctx, ctx.budget(60, 600))
+    element_stream(ctx, ctx.budget(40, 400))
     import colllib
     colllib.run(ctx, ctx.budget(200, 2500), prefix="C16",
                 only={"polygon3.area-then-contains", "polygon3.contains", "segment.contains", "segment3.contains", "triangle.contains", "triangle.contains-edge"},
